@@ -232,8 +232,9 @@ Print Assumptions C06_buckets_sorted.
 (* Which bins exist (sum/min/max/avg/quantile, every merge tree): bin k exists if and only if a selected
    document touches it, i.e. contributes a value to it or is counted in its NotExists.  Together with
    C06_agg_exact: no spurious empty bin is ever created and no touched bin is lost.  (The bins that hold
-   no value but exist are exactly those with NotExists > 0: a time bucket whose documents lack the field,
-   or (MID 0, group) for documents with the group token but without the field.) *)
+   no value but exist are exactly those with NotExists > 0: the (time bucket, group) of documents that
+   have the group token but lack the field, or the time bucket of documents that lack the field when
+   there is no group.  Since f3224d2 there is no special (MID 0, group) bin for a time series any more.) *)
 Theorem C06_bins_exist_iff_touched :
   forall q t k, is_field_func (q_func q) = true ->
     (lookup k (a_bins (eval_tree q t)) <> None <->
@@ -250,3 +251,17 @@ Example C06_sorted_nonvacuous :
   map (fun b => (b_name b, b_val b, b_ne b)) (fst (aggregate q (eval_tree q t)))
   = [(2%N, MNum 30, 0%N); (1%N, MNum 8, 0%N); (3%N, MNaN, 1%N)].
 Proof. reflexivity. Qed.
+
+(* The finding repaired by f3224d2, kept on the old aggregator (step_v0 / frac_direct_v0): request
+   avg(v) group_by g interval 1000 over one selected document {ts 1000500, g:api (token 2), no v}.
+   Before the repair the per-group not-exists count sat in bin (MID 0, api), which a time-series
+   Aggregate drops: no bucket at all.  The repaired model keeps it in the document's time bin and reports
+   {api, ts 1000000, NaN, not_exists 1} — what the documents imply (bin_ne = 1). *)
+Example C06_ts_group_notexists_v0_refuted :
+  let q := Query 0 (2 ^ 40) FAvg true 1000 [] 1 0 in
+  let ds := [Doc 1000500 true (Some 2%N) None] in
+  CaseDefs.bin_ne q (1000000%N, 2%N) (ProofsT.selected_docs q (Leaf ds)) = 1%N /\
+  (exists s, lookup (0%N, 2%N) (a_bins (frac_direct_v0 q ds)) = Some s /\ s_ne s = 1%N) /\
+  fst (aggregate q (frac_direct_v0 q ds)) = [] /\
+  fst (aggregate q (eval_tree q (Leaf ds))) = [Bucket 2 1000000 MNaN [] 1].
+Proof. split; [reflexivity|]. split; [eexists; split; reflexivity|]. split; reflexivity. Qed.
